@@ -146,6 +146,11 @@ def verify_contract(reg, c, timeout_ms=10000, feas_timeout_ms=2000, canary=True,
         eng.old = (old_heap, penv)
         eng.loop_old_env = penv
         outcome = None
+        import ast as _ast2
+        for gsrc in c.ghost_init:
+            for gs in _ast2.parse(gsrc).body:
+                eng.check_ghost_stmt(gs, c)
+                eng.exec(gs)
         try:
             eng.exec_block(node.body)
             result = NONEV
@@ -173,6 +178,9 @@ def verify_contract(reg, c, timeout_ms=10000, feas_timeout_ms=2000, canary=True,
                         eng.prove(f'{c.vname}::result-kind', z3.BoolVal(False), line=line)
                         raise Unsupported(f'result kind {result.kind} is not {want}')
             env2['result'] = result
+            for gname in c.ghost_vars:
+                if fr.locals.get(gname) is not None:
+                    env2[gname] = fr.locals[gname]
             for name, en in c.ensures.items():
                 eng.skolems = []
                 t = eng.eval_clause(en, env=env2, contract=c, polarity=1)
